@@ -289,3 +289,99 @@ def await_source(body, o, depth=0):
             return None
         return None
     return None
+
+
+# ---- error discipline --------------------------------------------------------------------------------------
+
+PASS_THROUGH = ("ok", "err", "map", "map_err", "and_then", "or_else", "ok_or", "ok_or_else", "into", "from", "as_ref", "as_mut",
+                "copied", "cloned", "transpose", "flatten", "filter", "unwrap_or_default")
+
+
+def result_checked(body, cs, depth=0):
+    """Is the Result/Option a call returns inspected?  True when its value (possibly through ok()/map_err()/...
+    adaptors) reaches a `?` (Try::branch), a discriminant test, a bool switch, is returned, or is unwrapped.
+    False when it is dropped / bound to `_`."""
+    if depth > 8:
+        return True
+    dest = cs.dest
+    if dest is None:
+        return True
+    if "p" in dest:
+        return True
+    d = dest["l"]
+    if d == 0:
+        return True
+    al = body.value_aliases(d)
+    if 0 in al:
+        return True
+    for a in al:
+        for (bb, j, kind, obj) in body.uses(a):
+            if kind == "switch":
+                return True
+            if kind == "stmt":
+                rv = obj["rv"]
+                if rv["k"] == "discr":
+                    return True
+                if rv["k"] in ("agg", "cast", "binop", "unop"):
+                    return True  # stored into something else: not ignored
+                if rv["k"] == "ref":
+                    # borrowed for a method call: look at who uses the borrow
+                    tl = obj["place"]["l"] if "p" not in obj["place"] else None
+                    if tl is not None:
+                        for (b2, j2, k2, o2) in body.uses(tl):
+                            if k2 == "call":
+                                c2 = mir.CallSite(body, b2, o2)
+                                nm = c2.callee.get("name")
+                                if nm in ("is_ok", "is_err", "is_some", "is_none", "unwrap", "expect"):
+                                    return True
+                                if nm in PASS_THROUGH and result_checked(body, c2, depth + 1):
+                                    return True
+                if rv["k"] == "use" and "p" in obj["place"]:
+                    return True  # stored into a field
+            if kind == "call":
+                c2 = mir.CallSite(body, bb, obj)
+                nm = c2.callee.get("name")
+                if nm in ("branch", "unwrap", "expect", "unwrap_or", "unwrap_or_else", "is_ok", "is_err", "is_some", "is_none",
+                          "expect_err", "unwrap_err"):
+                    return True
+                if nm in PASS_THROUGH:
+                    if result_checked(body, c2, depth + 1):
+                        return True
+                    continue
+                if nm in ("drop",):
+                    continue
+                return True  # passed to some other function: not silently ignored
+    return False
+
+
+# ---- FromValue siblings: downcast first, then parse the value's text form ---------------------------------------
+
+def fromvalue_rule(chk, P, prefix, types):
+    """Every `impl FromValue for <well-known type>` is `downcast_ref::<Self>()` first and falls back to
+    `Value::parse` (which renders *any* value - Display-captured, buffered, owned - to text and parses it)."""
+    FROM = "emit_core::value::FromValue"
+    for ty in types:
+        def f(ty=ty):
+            bs = [b for b in P.find(trait=FROM, method="from_value") if not b.is_closure and mir._strip_lifetimes(b.self_ty or "") == ty]
+            if not bs:
+                raise mir.AnchorMissing("impl FromValue for %s" % ty)
+            b = bs[0]
+            bodies = [b] + P.closures_of(b)
+            dc = [c for x in bodies for c in x.calls(normal_only=True) if c.callee.get("name") == "downcast_ref"]
+            pr = [c for x in bodies for c in x.calls(normal_only=True) if (c.callee.get("path") or "") == "emit_core::value::Value::<'v>::parse"
+                  or ((c.callee.get("path") or "").startswith("emit_core::value::Value") and c.callee.get("name") == "parse")]
+            if not dc:
+                return False, "%s::from_value does not try the typed value first (downcast_ref)" % ty, [], b.span
+            if not pr:
+                narrow = [c for x in bodies for c in x.calls(normal_only=True) if c.callee.get("name") in ("to_borrowed_str", "to_str", "cast")]
+                return False, ("%s::from_value does not fall back to Value::parse (the value's text form, whatever captured or "
+                               "buffered it)%s: a Display-captured, formatted or owned/buffered value would no longer be "
+                               "recognised" % (ty, "; it only looks at %s" % narrow[0].callee.get("name") if narrow else "")), [], (narrow[0].loc if narrow else b.span)
+            # parse applies to the value parameter itself
+            for c in pr:
+                o = c.body.origin(c.args[0])
+                rr = roots(o)
+                if not (("param", 1) in rr or any(k == "capture" and v == "value" for k, v in rr)):
+                    return False, "Value::parse is applied to %s, not the value being cast" % mir.o_str(o), [], c.loc
+            return True, "", [dc[0].loc, pr[0].loc]
+        chk.ob("%s.FromValue:%s" % (prefix, ty), "casting a property value to the typed form tries the typed value, then parses its text form", f)
